@@ -156,6 +156,12 @@ let handle kind a =
        | Within FErr -> Some "Err"
        | Within FPanic -> Some "Panic"
        | Within FUnsupported -> Some "unsupported")
+  | "fqq" ->
+      (match fqz_decode_qm (bytes_of_hex a.(0)) with
+       | FOk bs -> Some (long_obs bs)
+       | FErr -> Some "Err"
+       | FPanic -> Some "Panic"
+       | FUnsupported -> Some "unsupported")
   | "nme" ->
       (match names_encode (bytes_of_hex a.(0)) with
        | NmOk bs -> Some (long_obs bs)
